@@ -252,6 +252,9 @@ class Discharger:
             g = " ".join(t["callee"].get("gargs", []))
             if "core::ops::range::RangeFull" in g:
                 return ("D10", "full-range index `[..]`")
+            r = self.prefix_slice(s)
+            if r:
+                return r
             return self.length_guarded(s, index=True)
         if kind == "vec-remove":
             name = t["callee"]["path"].split("::")[-1]
@@ -270,13 +273,21 @@ class Discharger:
         kind = m.get("kind")
         fn = s.fn
         if kind in ("DivisionByZero", "RemainderByZero"):
-            c = const_int(m["a"])
-            if c is not None and c != 0:
-                return ("D9", "divisor is the constant %d" % c)
-            ap = fn.apath(m["a"])
-            if ap[0][0] == "cast" and ap[0][2][0][0] == "const" and ap[0][2][0][1] not in (0, "0"):
-                return ("D9", "divisor is a non-zero constant")
-            return self.gated_nonzero(s, m["a"])
+            # the assert's condition is `divisor == 0` (expected false); the message operand is the dividend
+            cond = fn.apath(s.term["cond"])
+            div = None
+            r = cond[0]
+            if r[0] == "binop" and r[1] == "Eq":
+                for x, y in ((r[2], r[3]), (r[3], r[2])):
+                    if y[0] == ("const", 0):
+                        div = x
+            if div is not None:
+                if div[0][0] == "const" and div[0][1] not in (0, "0"):
+                    return ("D9", "divisor is the constant %s" % div[0][1])
+                if div[0][0] == "cast" and div[0][2][0][0] == "const" and div[0][2][0][1] not in (0, "0"):
+                    return ("D9", "divisor is a non-zero constant")
+                return self.gated_nonzero_ap(s, div)
+            return None
         if kind == "Overflow":
             op = m["op"]
             a, b = const_int(m["a"]), const_int(m["b"])
@@ -297,9 +308,11 @@ class Discharger:
         return None
 
     def gated_nonzero(self, s, op):
+        return self.gated_nonzero_ap(s, s.fn.apath(op))
+
+    def gated_nonzero_ap(self, s, want):
         """A `!= 0` test on the same value guards the site."""
         fn = s.fn
-        want = fn.apath(op)
         for g in fn.guards_of(s.bb):
             d = fn.guard_desc(g)
             if d[0] == "bool" and d[1][0][0] == "binop" and d[1][0][1] in ("Ne", "Eq", "Gt", "Lt"):
@@ -327,6 +340,25 @@ class Discharger:
                     pos = r[1].endswith(("is_some", "is_ok"))
                     if same_value(inner, ap) and d[2] == pos:
                         return ("D4", "behind `%s == %s` on the same value" % (r[1].split("::")[-1], d[2]))
+        if root[0] == "call" and not ap[1] and root[1].endswith(("BTreeMap::<K, V, A>::get", "HashMap::<K, V, S>::get", "BTreeSet::<T, A>::get")) and len(root[2]) == 2:
+            # D4: map.get(k).unwrap() behind map.contains_key(k)
+            for g in fn.guards_of(s.bb):
+                d = fn.guard_desc(g)
+                if d[0] == "bool" and d[2] is True and d[1][0][0] == "call" and d[1][0][1].endswith(("::contains_key", "::contains")) and len(d[1][0][2]) == 2:
+                    if same_value(self.strip_deref(d[1][0][2][0]), self.strip_deref(root[2][0])) and same_value(self.strip_deref(d[1][0][2][1]), self.strip_deref(root[2][1])):
+                        return ("D4", "get(k).unwrap() behind contains_key(k) on the same map and key")
+        if root[0] == "call" and not ap[1] and root[1].endswith("core::ops::arith::Div<&'b types::number::Number>>::div") and len(root[2]) == 2:
+            # Div for &Number is None exactly when the divisor's value is zero
+            div = root[2][1]
+            dap = (div[0], div[1] + ("value",))
+            call_bb = root[3]
+            r = decide_divisor(self.F, fn, call_bb, fn.blocks[call_bb]["term"], "<&Number as Div>::div", dap, 1)
+            if r:
+                return ("D0", "Number / Number is Some because the divisor is non-zero: " + r[1])
+        if root[0] == "call" and not ap[1] and root[1].endswith("Peekable::<I>::peek"):
+            r = self.peek_is_some(s, root)
+            if r:
+                return r
         if root[0] == "call" and not ap[1]:
             name = root[1]
             # D1: Peekable<TokenIterator>::next/peek with an AlwaysSome lexer, or an AlwaysSome local function
@@ -362,6 +394,33 @@ class Discharger:
         r = self.length_guarded(s, unwrap_ap=ap)
         if r:
             return r
+        return None
+
+    def prefix_slice(self, s):
+        """D12: `name[prefix.len()..]` behind `name.starts_with(prefix)`, `name[..name.len()-1]` behind `name.ends_with(c)`."""
+        fn, t = s.fn, s.term
+        if "str" not in t["callee"]["path"] and "String" not in t["callee"]["path"]:
+            return None
+        base = fn.apath(t["args"][0])
+        rng = fn.apath(t["args"][1])
+        r = rng[0]
+        if r[0] != "agg":
+            return None
+        for g in fn.guards_of(s.bb):
+            d = fn.guard_desc(g)
+            if d[0] != "bool" or d[2] is not True or d[1][0][0] != "call":
+                continue
+            c = d[1][0]
+            if c[1].endswith("core::str::<impl str>::starts_with") and r[1].endswith("RangeFrom::RangeFrom"):
+                hay, needle = c[2][0], c[2][1]
+                start = r[2][0]
+                if same_value(self.strip_deref(hay), self.strip_deref(base)) and start[0][0] == "call" and start[0][1].endswith("::len") and \
+                        same_value(self.strip_deref(start[0][2][0]), self.strip_deref(needle)):
+                    return ("D12", "slice starts at prefix.len() behind `starts_with(prefix)`: in range and on a character boundary")
+            if c[1].endswith("core::str::<impl str>::ends_with") and r[1].endswith(("Range::Range", "RangeTo::RangeTo")):
+                hay = c[2][0]
+                if same_value(self.strip_deref(hay), self.strip_deref(base)):
+                    return ("D12", "slice drops the last character behind `ends_with(char)`")
         return None
 
     def iter_type(self, fn, root):
@@ -434,6 +493,35 @@ class Discharger:
             # the peek must be re-evaluated on every way round a loop: pb dominates nb
             if clean and fn.dominates(pb, nb):
                 return ("D2", "next() follows a peek() on the same stream that was tested Some, with no consuming call in between")
+        return None
+
+    def peek_is_some(self, s, root):
+        """peek().unwrap() behind `peek().is_some()` on the same stream with no consuming call in between."""
+        fn = s.fn
+        pb2 = root[3]
+        key = self.recv_key(fn, fn.blocks[pb2]["term"])
+        for g in fn.guards_of(pb2):
+            d = fn.guard_desc(g)
+            if d[0] == "bool" and d[1][0][0] == "call" and d[1][0][2] and d[1][0][1].endswith(("is_some", "is_none")):
+                pos = (d[1][0][1].endswith("is_some") and d[2]) or (d[1][0][1].endswith("is_none") and not d[2])
+                inner = self.peel(d[1][0][2][0])
+                if pos and inner[0][0] == "call" and inner[0][1].endswith("Peekable::<I>::peek") and not inner[1]:
+                    pb1 = inner[0][3]
+                    if self.recv_key(fn, fn.blocks[pb1]["term"]) != key or not fn.dominates(pb1, pb2):
+                        continue
+                    fwd = set()
+                    for _, x in fn.succs(pb1):
+                        fwd |= fn.reachable(x, cut_blocks={pb1})
+                    between = fwd & fn.can_reach({pb2}, cut_blocks={pb1})
+                    clean = True
+                    for b in between:
+                        if b in (pb1, pb2):
+                            continue
+                        t = fn.blocks[b]["term"]
+                        if t["k"] == "call" and "callee" in t and t["args"] and t["callee"]["path"].endswith(("Iterator>::next", "::next", "::next_if", "::nth")) and self.recv_key(fn, t) == key:
+                            clean = False
+                    if clean:
+                        return ("D2", "peek() is repeated right after `peek().is_some()` on the same stream with no consuming call in between")
         return None
 
     def length_guarded(self, s, index=False, unwrap_ap=None):
@@ -605,6 +693,9 @@ def decide_divisor(F, fn, bb, t, wrapper, ap, idx):
         pidx, pextra = DIVISOR_OF[fn.path]
         if ap[0] == ("arg", pidx + 1):
             return ("D0", "divisor is this wrapper's own parameter: precondition pushed to its callers")
+        r = ap[0]
+        if r[0] == "call" and r[1].endswith("types::numeric::Numeric::parity") and ap[1] == ("as Rational", "1") and r[2][1] == (("arg", pidx + 1), ()):
+            return ("D0", "divisor is the rational form of this wrapper's own parameter: precondition pushed to its callers")
     # float arms: IEEE division does not panic
     import k4
     if k4.float_guarded(fn, bb):
@@ -632,3 +723,315 @@ def decide_divisor(F, fn, bb, t, wrapper, ap, idx):
     if matched and res[bb]:
         return ("D0", "behind an exact zero test of the divisor")
     return None
+
+
+# =========================================================================================
+# justification table and the per-property driver
+# =========================================================================================
+def load_table():
+    p = os.path.join(facts.VERIF, "tables", "panic_justified.json")
+    with open(p) as fh:
+        return json.load(fh)["entries"]
+
+
+def normfn(path):
+    """Closure ordinals change when an unrelated closure is added to the function: ignore them in table keys."""
+    return re.sub(r"\{closure#\d+\}", "{closure}", path)
+
+
+def site_key(s, ordinal):
+    return "%s|%s|%d" % (s.fn.path, s.what, ordinal)
+
+
+def run(chk, F, which):
+    G, rs, reach, sites = inventory(F, which)
+    D = Discharger(F, G, reach)
+    table = load_table()
+    by_fn_what = {}
+    for e in table:
+        by_fn_what.setdefault((normfn(e["fn"]), e["what"]), []).append(e)
+    used = {}
+    counts = {}
+    n_site = 0
+    pid = chk.pid
+    # order sites deterministically: by function path, then block index
+    sites.sort(key=lambda s: (s.fn.path, s.what, s.bb))
+    ordn = {}
+    for s in sites:
+        n_site += 1
+        k = (s.fn.path, s.what)
+        ordn[k] = ordn.get(k, 0) + 1
+        fk = "%s::%s" % (s.fn.crate, s.fn.path)
+        summary = "%s#%d" % (s.what, ordn[k])
+        where = s.fn.where(s.bb)
+        if s.fn.path in WRAPPER_SITE_FNS and s.kind == "call" and s.what.split(":")[0] in ("ratio-div", "bigint-div", "ratio-new", "unwrap"):
+            chk.ok("panic-site", fk, summary, where, "D0: precondition of this thin wrapper is pushed to its callers (see divisor obligations)")
+            counts["D0w"] = counts.get("D0w", 0) + 1
+            continue
+        r = D.decide(s)
+        if r:
+            chk.ok("panic-site", fk, summary, where, "%s: %s" % r, trivial=(r[0] == "D7"))
+            counts[r[0]] = counts.get(r[0], 0) + 1
+            continue
+        es = by_fn_what.get((normfn(k[0]), k[1]), [])
+        e = None
+        for cand in es:
+            if used.get(id(cand), 0) < cand.get("n", 1):
+                e = cand
+                break
+        if e is not None:
+            used[id(e)] = used.get(id(e), 0) + 1
+            ok, why = backing_holds(F, s, e)
+            if ok:
+                chk.ok("panic-site", fk, summary, where, "D8 justified: %s%s" % (e["reason"], (" [checked: %s]" % why) if why else ""))
+                counts["D8"] = counts.get("D8", 0) + 1
+                continue
+            chk.finding("panic-site", fk, summary, where, "the justification `%s` no longer holds: %s" % (e["reason"][:100], why),
+                        path=G.path_to(reach, s.fn.id))
+            continue
+        chk.finding("panic-site", fk, summary, where,
+                    "unjustified panic site reachable from the %s entry points: %s (no discharge rule D0-D11 applies and there is no entry in tables/panic_justified.json)" % (
+                        "query" if which == "C04" else "loader", describe(s)), path=G.path_to(reach, s.fn.id))
+    # table entries that matched nothing: the justified code is gone (stale table) - informational only
+    stale = [e for e in table if used.get(id(e), 0) == 0 and any(f.path == e["fn"] for f in F.by_crate[CORE]) is False]
+    chk.extra["discharge_counts"] = counts
+    chk.extra["roots"] = len(rs)
+    chk.extra["reachable_functions"] = len(reach)
+    chk.extra["panic_sites"] = n_site
+    # divisor obligations (D0)
+    obs = divisor_obligations(F, reach)
+    obs.sort(key=lambda o: (o[0].path, o[3], o[1]))
+    od = {}
+    for fn, bb, t, w, ap, idx in obs:
+        k = (fn.path, w)
+        od[k] = od.get(k, 0) + 1
+        fk = "%s::%s" % (fn.crate, fn.path)
+        summary = "divisor-of:%s#%d" % (w.split("::")[-1].split(">")[0], od[k])
+        r = decide_divisor(F, fn, bb, t, w, ap, idx)
+        if r:
+            chk.ok("divisor-nonzero", fk, summary, fn.where(bb), "%s: %s" % r)
+            continue
+        es = by_fn_what.get((normfn(fn.path), "divisor:" + w.split("::")[-1]), [])
+        e = None
+        for cand in es:
+            if used.get(id(cand), 0) < cand.get("n", 1):
+                e = cand
+                break
+        if e is not None:
+            used[id(e)] = used.get(id(e), 0) + 1
+            ok, why = backing_holds(F, Site(fn, bb, "call", "divisor", t, False), e)
+            if ok:
+                chk.ok("divisor-nonzero", fk, summary, fn.where(bb), "D8 justified: %s%s" % (e["reason"], (" [checked: %s]" % why) if why else ""))
+                continue
+            chk.finding("divisor-nonzero", fk, summary, fn.where(bb), "the justification `%s` no longer holds: %s" % (e["reason"][:100], why))
+            continue
+        chk.finding("divisor-nonzero", fk, summary, fn.where(bb),
+                    "%s is called with a divisor that is not shown to be non-zero (%s): division by zero panics inside num-rational/num-bigint" % (w.split("::")[-1], ap_str(ap)[:120]),
+                    path=G.path_to(reach, fn.id))
+    if n_site < 200:
+        chk.anchor_lost("panic-site", "rink_core", "only %d panic-capable sites found in %d reachable functions (expected >= 200): the inventory is incomplete" % (n_site, len(reach)))
+    # recursion: listed, not decided
+    chk.extra["undecided"] = "termination, recursion depth and the cost of bignum operations are runtime quantities and are not decided"
+    return G, reach
+
+
+def describe(s):
+    if s.kind == "assert":
+        m = s.term["msg"]
+        return "arithmetic check `%s` on %s" % (s.what, m.get("aty", ""))
+    return "call of %s" % s.term["callee"]["path"]
+
+
+# ---- backing predicates for table entries -------------------------------------------------------------
+def backing_holds(F, s, e):
+    b = e.get("backing")
+    if not b:
+        return True, ""
+    fn_ = BACKING.get(b)
+    if fn_ is None:
+        return False, "unknown backing predicate %s" % b
+    try:
+        return fn_(F, s, e)
+    except (AnchorLost, KeyError, IndexError, TypeError) as ex:
+        return False, "backing check %s could not be evaluated: %r" % (b, ex)
+
+
+def _guarded_by_call(suffix, polarity=True):
+    def chk(F, s, e):
+        fn = s.fn
+        for g in fn.guards_of(s.bb):
+            d = fn.guard_desc(g)
+            if d[0] == "bool" and d[2] is polarity and any(c.endswith(suffix) for c in ap_calls(d[1])):
+                return True, "behind `%s == %s`" % (suffix.split("::")[-1], polarity)
+        return False, "no dominating `%s == %s` test" % (suffix, polarity)
+    return chk
+
+
+def _only_callers(allowed):
+    def chk(F, s, e):
+        G = cg.get(F)
+        callers = sorted(F.fns[a].path for a, bs in G.edges.items() if s.fn.id in bs and a != s.fn.id)
+        bad = [c for c in callers if not any(c == a or c.startswith(a + "::{closure") for a in allowed)]
+        return (not bad), ("callers: %s" % callers if not bad else "unexpected callers %s" % bad)
+    return chk
+
+
+def _prefixes_nonzero(F, s, e):
+    import datafiles
+    f = datafiles.folder()
+    zero = [n for n, x, _ in f.prefixes if f.pval(x) == 0]
+    return (not zero), ("all %d prefixes of definitions.units are non-zero" % len(f.prefixes) if not zero else "zero-valued prefixes %s" % zero)
+
+
+def _degree_units_exist(F, s, e):
+    import c10
+    import datafiles
+    _, table = c10.degree_table(F)
+    f = datafiles.folder()
+    bad = []
+    for deg, (name, zero, scale) in table.items():
+        for u in (zero, scale):
+            try:
+                v, dims = f.lookup(u)
+                if dims != {"K": 1} or (u == scale and v == 0):
+                    bad.append(u)
+            except Exception:  # noqa
+                bad.append(u)
+    return (not bad), ("the 6 zero constants and scale units are defined temperatures with non-zero scale" if not bad else "missing/ill-typed %s" % bad)
+
+
+def _magnitude_gate(F, s, e):
+    fn = s.fn
+    for g in fn.guards_of(s.bb):
+        d = fn.guard_desc(g)
+        if d[0] == "bool" and d[2] is True:
+            r = d[1][0]
+            if r[0] == "call" and r[1].endswith("::lt") and "Numeric::abs(arg2.value)" in ap_str(d[1]):
+                return True, "behind `|exp| < 2^31`"
+    return False, "the magnitude gate `exp.value.abs() < 2^31` no longer dominates this site"
+
+
+def _integer_gate(F, s, e):
+    ok, why = _magnitude_gate(F, s, e)
+    if not ok:
+        return ok, why
+    fn = s.fn
+    for g in fn.guards_of(s.bb):
+        d = fn.guard_desc(g)
+        if d[0] == "bool" and "to_rational" in ap_str(d[1]) and "BigInt" in ap_str(d[1]):
+            return True, "behind `|exp| < 2^31` and the integer (den == 1) test"
+    return False, "no dominating den == 1 test"
+
+
+def _take10(F, s, e):
+    fn = s.fn
+    h = F.hir_of(fn)
+    import hirpp
+    txt = "\n".join(hirpp.tree(h["body"]))
+    ok = "candidates = next.into_iter().take(10).collect()" in txt
+    return ok, ("candidates is rebuilt with take(10) on every iteration" if ok else "candidates is no longer truncated with take(10)")
+
+
+def _arm_order_equals_first(F, s, e):
+    fn = s.fn
+    h = F.hir_of(fn)
+    from facts import hir_walk
+    import hirutil as H
+    top = [m for m in hir_walk(h["body"]) if m.get("k") == "Match" and m.get("src") == "Normal"][0]
+    pats = [H.pat_str(a["pat"]) for a in top["arms"]]
+    eq = [i for i, p in enumerate(pats) if "BinOpType::Equals" in p]
+    generic = [i for i, p in enumerate(pats) if p.startswith("Expr::BinOp(binop)")]
+    ok = bool(eq) and bool(generic) and eq[0] < generic[0]
+    return ok, ("an earlier arm takes every BinOp with op Equals" if ok else "arm order changed")
+
+
+def _mul_has_two(F, s, e):
+    nm = F.find(CORE, "ast::expr::Expr::new_mul")
+    import hirpp
+    txt = hirpp.expr(F.hir_of(nm)["body"])
+    ok = "len() Eq 1" in txt
+    # Expr::Mul is constructed only in new_mul
+    sites = []
+    for fn in F.by_crate[CORE]:
+        if fn.raw.get("from_expansion"):
+            continue
+        for i, j, st in fn.stmts():
+            rv = st.get("rv", {})
+            if rv.get("k") == "agg" and rv.get("adt") == "ast::expr::Expr" and rv.get("variant") == "Mul" and "Derive" not in str(st["loc"].get("exp", "")):
+                sites.append(fn.path)
+    ok = ok and set(sites) <= {"ast::expr::Expr::new_mul"}
+    return ok, ("Expr::Mul is only built by new_mul, which collapses singletons (callers pass non-empty vectors)" if ok else "Expr::Mul constructed in %s" % sorted(set(sites)))
+
+
+def _exponent_bound_gates(F, s, e):
+    """Number::pow refuses powers whose resulting unit exponents leave the i32 range (checked_mul + comparison), before powi;
+    eval_quantity does the same before Dimensionality::pow."""
+    pw = F.find(CORE, "types::number::Number::pow")
+    powi = k2.call_blocks(pw, "types::number::Number::powi")
+    ok1 = False
+    for bb in powi:
+        for g in pw.guards_of(bb):
+            d = pw.guard_desc(g)
+            if d[0] == "bool" and d[2] is False and any(c.endswith("Iterator>::any") or c.endswith("Iterator::any") for c in ap_calls(d[1])):
+                ok1 = True
+    cm = [f for f in F.by_crate[CORE] if f.path.startswith("types::number::Number::pow::{closure") and any("checked_mul" in t["callee"]["path"] for _, t in f.calls() if "callee" in t)]
+    eq = F.find(CORE, "loader::load::eval_quantity")
+    dp = [(bb, t) for bb, t in eq.calls() if "callee" in t and t["callee"]["path"].endswith("Dimensionality::pow")]
+    ok2 = bool(dp) and all("Option::<T>::filter" in ap_str(eq.apath(t["args"][1])) for bb, t in dp)
+    cq = [f for f in F.by_crate[CORE] if f.path.startswith("loader::load::eval_quantity::{closure") and any("checked_mul" in t["callee"]["path"] for _, t in f.calls() if "callee" in t)]
+    ok = ok1 and bool(cm) and ok2 and len(cq) >= 2
+    return ok, ("Number::pow and eval_quantity bound resulting exponents with checked_mul before powi / Dimensionality::pow" if ok else
+                "exponent bound missing: pow gate %s, pow checked_mul %s, eval_quantity filter %s, eval_quantity checked_mul closures %d" % (ok1, bool(cm), ok2, len(cq)))
+
+
+def _numeric_pow_callers(F, s, e):
+    G = cg.get(F)
+    target = F.find(CORE, "types::numeric::Numeric::pow")
+    callers = sorted(set(F.fns[a].path for a, bs in G.edges.items() if target.id in bs and a != target.id))
+    allowed = {"types::number::Number::powi", "loader::load::eval_prefix", "types::number::Number::prettify", "runtime::eval::eval_unit_name"}
+    bad = [c for c in callers if c not in allowed]
+    if bad:
+        return False, "Numeric::pow is also called from %s" % bad
+    # Number::pow: strict magnitude gate and zero-base test before powi
+    pw = F.find(CORE, "types::number::Number::pow")
+    powi = k2.call_blocks(pw, "types::number::Number::powi")
+    mg = all(_magnitude_gate(F, Site(pw, bb, "call", "powi", pw.blocks[bb]["term"], False), e)[0] for bb in powi)
+    # eval_prefix: zero base with a negative exponent refused
+    ep = F.find(CORE, "loader::load::eval_prefix")
+    pc = k2.call_blocks(ep, "types::numeric::Numeric::pow")
+
+    def acc(kind, ap, info):
+        if kind != "bool":
+            return None
+        r = ap[0]
+        if r[0] == "binop" and r[1] == "Lt" and r[3][0] == ("const", 0):
+            return {"false"}
+        if r[0] == "call" and r[1] == "<types::numeric::Numeric as core::cmp::PartialEq>::eq" and ("Numeric::zero()" in ap_str(ap) or "Float" in ap_str(ap)):
+            return {"false"}
+        return None
+    res, matched = k2.cut_gate(ep, pc, acc)
+    zg = bool(pc) and len(matched) >= 2 and all(res.values())
+    un = F.find(CORE, "runtime::eval::eval_unit_name")
+    uc = k2.call_blocks(un, "types::numeric::Numeric::pow")
+    res2, matched2 = k2.cut_gate(un, uc, acc)
+    zg = zg and bool(uc) and len(matched2) >= 2 and all(res2.values())
+    return (mg and zg), ("callers %s; Number::pow gate %s; eval_prefix zero-base gate %s" % ([c.split("::")[-1] for c in callers], mg, zg))
+
+
+BACKING = {
+    "exponent_bound_gates": _exponent_bound_gates,
+    "numeric_pow_callers": _numeric_pow_callers,
+    "starts_with": _guarded_by_call("core::str::<impl str>::starts_with", True),
+    "ends_with": _guarded_by_call("core::str::<impl str>::ends_with", True),
+    "is_valid_timezone": _guarded_by_call("is_valid_timezone", True),
+    "contains_key": _guarded_by_call("::contains_key", True),
+    "prefixes_nonzero": _prefixes_nonzero,
+    "degree_units_exist": _degree_units_exist,
+    "magnitude_gate": _magnitude_gate,
+    "integer_gate": _integer_gate,
+    "take10": _take10,
+    "equals_arm_first": _arm_order_equals_first,
+    "mul_has_two": _mul_has_two,
+    "only_called_from_to_string": _only_callers(["types::bigrat::BigRat::to_string", "types::bigrat::BigRat::to_scientific", "types::bigrat::BigRat::to_digits_impl"]),
+    "only_called_from_conformance_err": _only_callers(["runtime::eval::conformance_err"]),
+}
